@@ -66,8 +66,8 @@ impl Check for C17 {
 	}
 	fn runs(&self, tier: Tier) -> u64 {
 		match tier {
-			Tier::Quick => 12_000,
-			Tier::Thorough => 400_000,
+			Tier::Quick => 100_000,
+			Tier::Thorough => 2_000_000,
 		}
 	}
 	fn generate(&self, root: &Rng, i: u64, tier: Tier) -> Case {
